@@ -270,6 +270,8 @@ func judgeHours(s string) hoursVerdict {
 		v.Why = "grey-24h-60m" // not clock values, tolerated either way
 	case h.EndH*60+h.EndM == h.StartH*60+h.StartM:
 		v.Why = "grey-empty-window" // start == end: tolerated either way
+	case (len(m[1]) == 2 && m[1][0] == '0') || (len(m[3]) == 2 && m[3][0] == '0'):
+		v.Why = "grey-zero-padded-hour" // "08:00": the documented form is "8:00"; tolerated either way
 	default:
 		v.MustAccept = true
 	}
